@@ -21,6 +21,11 @@ prop("C01", "Assignment fidelity: the destination receives exactly the source va
 ])
 
 prop("C02", "Non-interference: a rule changes only its own destination", [
+    ("independent_rules_any_order", "independent_rules_any_order", "FULL STATEMENT, second sentence: a block of rules `obj.Fi = <literal or document path>` with pairwise distinct destination fields succeeds in every ordering; every ordering leaves the same objects, variables, counters and call log; in that state each destination field holds exactly what its rule alone writes, every other field of the object and every other object is as before (any user functions, any fuel, any number of rules)"),
+    ("independent_block", "independent_block", "the induction behind it: the block leaves the destination object equal to the rules' writes applied one after another and touches nothing else"),
+    ("writes_commute", "fold_upd_perm", "a sequence of writes to distinct fields gives the same object in every order (induction over permutations)"),
+    ("example_two_rules", "e_block_is_independent", "not vacuous: the parsed program `obj.Id = \"lit\"; obj.Status = jso.n` meets the premises"),
+    ("example_both_orders", "e_both_orders", "and both orders decode to the same object"),
     ("destination_write_frame", "dst_write_frame", "RULE LEVEL: Ctx.set on a destination that is not a context variable changes no variable, counter or log, and no object other than the one the destination's root variable points to"),
     ("field_write_frame", "setwb_frame", "writing a field leaves all variables, counters, trace, break depth, error channel and every other object untouched"),
     ("other_fields_untouched", "oupdate_flat_other", "within an object, the other fields keep their value"),
